@@ -206,6 +206,7 @@ def execute(job):
         d = json.loads(l)
         last = d
         o = {k: d[k] for k in KEEP}
+        o["inl"] = d["inl"]
         o["fs"] = [{"obs": x["obs"], "size": x["size"], "len": x["len"], "c": x["c"], "m": x["m"]} for x in d["fs"]]
         if d["e"] == "final":
             o["cret"] = d["cret"]
